@@ -1,6 +1,7 @@
 package main
 
 import (
+	"fmt"
 	"go/constant"
 	"go/token"
 	"strings"
@@ -134,6 +135,23 @@ func checkC09(c *Ctx) {
 	c.guard(p, "C09.guard", "Point.UnmarshalBinary succeeds only through FromBytes", p.Func("ecc/goldilocks", "Point", "UnmarshalBinary"),
 		GuardSpec{Assumes: []Assume{calleeAssume(latNonNil, 1, "ecc/goldilocks.FromBytes")}})
 
+	// ---- BLS12-381: the payload of an encoded point at infinity is zero over the whole encoding of its
+	// form (48 / 96 bytes for G1, 96 / 192 for G2): the comparison covers b[1:l] with l chosen by the form
+	for _, g := range []struct {
+		t    string
+		c, u int
+	}{{"G1", 48, 96}, {"G2", 96, 192}} {
+		c.callArgRule(p, "C09.guard", "the zero test of an infinity encoding covers the whole compressed or uncompressed length", p.Func("ecc/bls12381", g.t, "SetBytes"),
+			"crypto/subtle.ConstantTimeCompare", "", map[int]string{0: fmt.Sprintf(`param#1\[1:phi\((%d\|%d|%d\|%d)\)\]`, g.c, g.u, g.u, g.c)})
+	}
+	// ---- P-384 (optimised back-end): membership is the curve equation and nothing else: (0,0), the
+	// representation of the identity used by Add / ScalarMult, is not an encodable point
+	if f := p.Func("ecc/p384", "curve", "IsOnCurve"); f != nil {
+		c.guard(p, "C09.membership", "IsOnCurve accepts only when y^2 = x^3 - 3x + b holds", f, GuardSpec{BinAssumes: []BinAssume{
+			binDesc(f, "y^2 == x^3 - 3x + b", `local:ecc/p384\.fp384 == local:ecc/p384\.fp384`, latFalse)}})
+	} else {
+		c.ok("C09.membership", "ecc/p384 optimised IsOnCurve", "not part of this build configuration", "")
+	}
 	// ---- FourQ ----
 	fpFrom := p.Func("ecc/fourq", "Fp", "fromBytes")
 	c.guard(p, "C09.noreduce", "coordinate equal to the modulus 2^127-1 rejected (not reduced to 0)", fpFrom,
@@ -168,6 +186,21 @@ func checkC09(c *Ctx) {
 	c.guard(p, "C09.guard", "a scalar equal to the group order is rejected", ws, GuardSpec{Assumes: []Assume{calleeAssume(latInt(0), -1, "(*math/big.Int).Cmp")}})
 	we := p.Func("group", "wElt", "UnmarshalBinary")
 	c.guardEachSite(p, "C09.guard", "NIST-curve element must decode (on curve, canonical) via crypto/elliptic", we, 0, latNil, "crypto/elliptic.Unmarshal", "crypto/elliptic.UnmarshalCompressed")
+	// each of the two point formats has its own membership test: the standard decoder of that format, or an
+	// explicit IsOnCurve call (a hand-written decompression without one yields off-curve values)
+	if we != nil {
+		onCurve := []string{"invoke (crypto/elliptic.Curve).IsOnCurve", "(*crypto/elliptic.CurveParams).IsOnCurve"}
+		for _, fm := range [][2]string{{"compressed", "crypto/elliptic.UnmarshalCompressed"}, {"uncompressed", "crypto/elliptic.Unmarshal"}} {
+			what := "the " + fm[0] + " format is decoded by " + fm[1] + " or followed by an on-curve test"
+			if len(p.callSites(we, fm[1])) > 0 {
+				c.guardEachSite(p, "C09.guard", what, we, 0, latNil, fm[1])
+			} else if len(p.callSites(we, onCurve...)) > 0 {
+				c.guardEachSite(p, "C09.guard", what, we, -1, latFalse, onCurve...)
+			} else {
+				c.bad("C09.guard", fname(we)+": "+what, "neither "+fm[1]+" nor an IsOnCurve call is made in the decoder", p.fnPos(we))
+			}
+		}
+	}
 	c.lenReject(p, "C09.len", we, "b", false)
 	c.guard(p, "C09.guard", "ristretto255 element decodes only through go-ristretto (canonical, in group)", p.Func("group", "ristrettoElement", "UnmarshalBinary"),
 		GuardSpec{Assumes: []Assume{calleeAssume(latFalse, -1, "(*github.com/bwesterb/go-ristretto.Point).SetBytes")}})
@@ -189,6 +222,35 @@ func checkC09(c *Ctx) {
 	// ---- tkn matrices of group elements ----
 	for _, t := range []string{"matrixG1", "matrixG2"} {
 		f := p.Func("abe/cpabe/tkn20/internal/tkn", t, "unmarshalBinary")
+		// the slots have the uncompressed size; the group decoder reads only half of a slot that holds a
+		// compressed point and ignores the rest, so such an entry has to be refused here
+		{
+			what := "a matrix entry in compressed form (half of its slot unread) is rejected"
+			isFlag := func(v ssa.Value, in *ssa.Function) bool {
+				b, ok := v.(*ssa.BinOp)
+				if !ok || in != f || b.Op != token.AND {
+					return false
+				}
+				k, ok := b.Y.(*ssa.Const)
+				return ok && k.Value != nil && k.Value.ExactString() == "128"
+			}
+			var site ssa.Instruction
+			if f != nil {
+				for _, b := range f.Blocks {
+					for _, in := range b.Instrs {
+						if v, ok := in.(ssa.Value); ok && isFlag(v, f) {
+							site = in
+						}
+					}
+				}
+			}
+			if f != nil && site == nil {
+				c.bad("C09.guard", fname(f)+": "+what, "the compression flag of an entry (first byte & 0x80) is never examined", p.fnPos(f))
+			} else {
+				// (an empty matrix is accepted without any entry being looked at: only paths through the test count)
+				c.guard(p, "C09.guard", what, f, GuardSpec{Through: site, ValAssumes: []ValAssume{{Name: "compression flag of the entry (byte & 0x80)", Val: latInt(128), Match: isFlag}}})
+			}
+		}
 		c.guardEachSite(p, "C09.guard", "every matrix entry must decode as a group element", f, -1, latNonNil, "(*ecc/bls12381.G1).SetBytes", "(*ecc/bls12381.G2).SetBytes")
 	}
 }
